@@ -128,16 +128,9 @@ Section Construct.
     end.
 End Construct.
 
-(* events performed while the tree is being built (before any verdict) *)
-Fixpoint init_events (n : node) : list tev :=
-  match n with
-  | Node h subs =>
-      (match h_kind h with
-       | KLoss => [(h, EvResolve (h_module h) (h_class h))]
-       | _ => []
-       end) ++ flat_map init_events subs
-  | _ => []
-  end.
+(* events performed while the tree is being built (before any verdict): none.
+   get_tree's result type carries no event; nothing in `build` resolves a name. *)
+Definition init_events (n : node) : list tev := [].
 
 Definition construct_trace (t : node) : res (list tev) :=
   do (es, _) <- ctrace t 3000 [] [] t; Ok es.
